@@ -246,6 +246,17 @@ func manyFamilies(sp *spaceCtx, thorough bool) []*h.Scaffolded {
 		add("long-steps-and-tails(depth 6)", keys)
 	}
 	u122 := h.Universe(s12, 2)
+	// more than 128 (and more than 255) 257-bit nodes: a root with 200 children,
+	// each child fanning out on 12 bytes
+	{
+		var keys []string
+		for a := 0; a < 200; a++ {
+			for _, b := range s12 {
+				keys = append(keys, string([]byte{byte(a + 20), b}))
+			}
+		}
+		add("bigfan(200x12)", keys)
+	}
 	add("U(S12,2)", u122)
 	add("U(S12,2)/2", thin(u122, 2, 1))
 	add("U(S4,4)", h.Universe(sp.sigma, 4))
@@ -553,6 +564,49 @@ func buildPhases(r *h.Run, p profile) []phase {
 				for _, S := range rich {
 					u := mkq(sc.Apply(S), false)
 					u.patterns = []uint64{(1 << uint(len(S)-1)) - 1, 0x5}
+					if !emit(u) {
+						return
+					}
+				}
+			}
+		}})
+	}
+
+	// tail sweep: every length of a leaf tail (1..140 bytes; thorough 1..300 and
+	// some long ones): at a 4-bit root without prefix (the key alone in its
+	// nibble class), under an inner node with a prefix, and two long tails that
+	// differ late
+	{
+		maxT := 140
+		if thorough {
+			maxT = 300
+		}
+		var lens []int
+		for t := 1; t <= maxT; t++ {
+			lens = append(lens, t)
+		}
+		lens = append(lens, 1023, 1024, 4097)
+		r.Bounds["tail_sweep"] = fmt.Sprintf("leaf tail lengths 1..%d bytes + {1023, 1024, 4097} x 3 shapes", maxT)
+		mkq := mk(sp.q2)
+		phases = append(phases, phase{"tail-sweep", func(emit func(u interface{}) bool) {
+			if p.scaffoldFilter != nil && !p.scaffoldFilter("tailsweep") {
+				return
+			}
+			for _, t := range lens {
+				x, y := strings.Repeat("\x78", t), strings.Repeat("\x79", t)
+				shapes := [][]string{
+					{"\x11" + x, "\x12", "\x2f" + y + "\x00"},
+					{"app/a", "app/b-" + x, "app/c", "b"},
+					{"\x30" + x + "\x01", "\x30" + x + "\x02" + y, "\x31"},
+				}
+				for si, S := range shapes {
+					sort.Strings(S)
+					sc := &h.Scaffolded{Name: fmt.Sprintf("tail%d-%d", t, si), Keys: S, IsVar: make([]bool, len(S)), Lift: func(q string) string { return q }}
+					for i := range sc.IsVar {
+						sc.IsVar[i] = true
+					}
+					u := mkq(sc, false)
+					u.patterns = []uint64{(1 << uint(len(S)-1)) - 1, 0x2}
 					if !emit(u) {
 						return
 					}
